@@ -292,6 +292,64 @@ def rule_bn5(repo, col):
                "formula_to_bn must call clause_to_cpt(clause, idx, bn) for every (idx, clause) of enumerate(formula.enum_clauses()), unconditionally", construct="formula_to_bn: clause loop", function="formula_to_bn")
 
 
+def rule_bn6(repo, col):
+    """clause branch: the parent list handed to the choice-node Factor is the order-preserving image of the sequence the row keys are enumerated over
+    (column i of a key tuple is the truth value of parent i)"""
+    f = repo.func(BN, "clause_to_cpt")
+    m = f.module
+    body = _branch(f, "Clause")
+    wrap = ast.Module(body=body, type_ignores=[])
+    # the sequence the key tuples are zipped with
+    zips = [c for c in ast.walk(wrap) if isinstance(c, ast.Call) and dotted(c.func) == "zip" and len(c.args) == 2]
+    prods = [c for c in ast.walk(wrap) if isinstance(c, ast.Call) and dotted(c.func) in ("itertools.product", "product")]
+    if len(prods) != 1:
+        raise AnalysisError("clause_to_cpt: enumeration of the parent truth values not found")
+    keyvar = None
+    for n in ast.walk(wrap):
+        if isinstance(n, ast.For) and n.iter is prods[0] and isinstance(n.target, ast.Name):
+            keyvar = n.target.id
+    seq = [norm(z.args[0]) for z in zips if keyvar is not None and norm(z.args[1]) == keyvar] + [norm(z.args[1]) for z in zips if keyvar is not None and norm(z.args[0]) == keyvar]
+    if len(set(seq)) != 1:
+        raise AnalysisError("clause_to_cpt: the sequence paired with the key tuples was not found")
+    S = seq[0]
+    facs = [c for c in ast.walk(wrap) if isinstance(c, ast.Call) and dotted(c.func) == "Factor" and len(c.args) >= 4]
+    if len(facs) != 1:
+        raise AnalysisError("clause_to_cpt: Factor(...) of the choice node not found")
+    parg = facs[0].args[2]
+    e = parg
+    if isinstance(parg, ast.Name):
+        defs = [st.value for st in body if isinstance(st, ast.Assign) and any(isinstance(t_, ast.Name) and t_.id == parg.id for t_ in st.targets)]
+        if len(defs) != 1:
+            raise AnalysisError("clause_to_cpt: definition of %s not found" % parg.id)
+        e = defs[0]
+
+    def order(e_):
+        """'same' when e_ lists an image of S element by element in S's order, 'permuted' when it provably reorders / deduplicates, None when unknown"""
+        if norm(e_) == S:
+            return "same"
+        if isinstance(e_, ast.ListComp) and len(e_.generators) == 1 and not e_.generators[0].ifs:
+            return order(e_.generators[0].iter)
+        if isinstance(e_, ast.Call) and dotted(e_.func) in ("list", "tuple") and len(e_.args) == 1:
+            return order(e_.args[0])
+        if isinstance(e_, ast.GeneratorExp) and len(e_.generators) == 1 and not e_.generators[0].ifs:
+            return order(e_.generators[0].iter)
+        if isinstance(e_, ast.Call) and dotted(e_.func) == "map" and len(e_.args) == 2:
+            return order(e_.args[1])
+        if isinstance(e_, ast.Call) and dotted(e_.func) in ("sorted", "reversed", "set", "frozenset") and e_.args:
+            return "permuted" if order(e_.args[0]) is not None else None
+        if isinstance(e_, ast.Subscript) and isinstance(e_.slice, ast.Slice) and e_.slice.step is not None and norm(e_.slice.step) == "-1":
+            return "permuted" if order(e_.value) is not None else None
+        return None
+
+    o = order(e)
+    if o is None:
+        raise AnalysisError("clause_to_cpt: parent list %s is not recognisably derived from %s" % (norm(e)[:60], S))
+    col.decide("BN6", m, facs[0], o == "same", "the choice node lists its parents in the order of the key columns",
+               "the choice-node Factor declares its parents as %s, a reordering of %s, while row keys are tuples over %s in its own order: column i of the table then belongs to another "
+               "parent than the i-th declared one (body b, \\+a: the row for b true / a false is read as a true / b false), so the exported network has different marginals"
+               % (norm(e)[:60], S, S), construct="clause_to_cpt: parent list reordered against the key columns", function="clause_to_cpt")
+
+
 def run(repo, col):
     col.rule("BN1", "truth table of term_to_bool")
     col.rule("BN2", "rows of the choice-node table")
@@ -302,3 +360,5 @@ def run(repo, col):
     rule_bn2_bn3(repo, col)
     rule_bn4(repo, col)
     rule_bn5(repo, col)
+    col.rule("BN6", "parents declared in the order of the key columns")
+    rule_bn6(repo, col)
